@@ -3,7 +3,7 @@
 A buffer (`*[]byte` handle of `mempool`) is identified by an id.  Pool memory is never cleared: the
 bytes of a freed buffer stay in place and are what the next `Malloc` of that buffer sees (this is how
 defect #16 puts stale bytes of another connection on the wire), so `data` survives `free`/`malloc`
-and a buffer is `dirty` until its owner resets it.
+and a buffer is `dirty` until its owner resets it (`reset`) or overwrites all of it (`fill`).
 
 The allocator's freedom — which buffer a `Malloc` returns — is the `b` argument of `malloc`; C20
 (live handles pairwise disjoint) appears as "no `allocLive` fault".  C20's frame property (an
@@ -29,6 +29,7 @@ structure G where
 inductive Op where
   | malloc (b : Bid) (n : Nat)    -- `mempool.Malloc(n)` returned buffer `b` (len n, contents = what was there)
   | reset (b : Bid)               -- `*p = (*p)[0:0]`
+  | fill (b : Bid) (d : Bytes)    -- `copy(*p, d)`: overwrites the first |d| bytes (Malloc(len(d)); copy — conn_unix.go, body.go)
   | append (b : Bid) (d : Bytes)  -- `mempool.Append(p, d...)`
   | send (b : Bid)                -- `conn.Write(*p)`
   | sendLit (d : Bytes)           -- `conn.Write(data)` of memory that is not pooled
@@ -54,6 +55,9 @@ def resize (n : Nat) (old : Bytes) : Bytes := (old ++ List.replicate n 0).take n
 def apply (g : G) (c : Cid) : Op → G
   | .malloc b n => set g b { owner := some c, data := resize n (g.heap b).data, dirty := decide (0 < n) }
   | .reset b => set g b { (g.heap b) with data := [], dirty := false }
+  | .fill b d =>
+    let old := g.heap b
+    set g b { old with data := d ++ old.data.drop d.length, dirty := old.dirty && decide (d.length < old.data.length) }
   | .append b d => set g b { (g.heap b) with data := (g.heap b).data ++ d }
   | .send b => emit g c (g.heap b).data
   | .sendLit d => emit g c d
@@ -62,6 +66,7 @@ def apply (g : G) (c : Cid) : Op → G
 def fault (g : G) (c : Cid) : Op → Option Fault
   | .malloc b _ => if (g.heap b).owner = none then none else some .allocLive
   | .reset b => if (g.heap b).owner = some c then none else some .notOwner
+  | .fill b _ => if (g.heap b).owner = some c then none else some .notOwner
   | .append b _ => if (g.heap b).owner = some c then none else some .notOwner
   | .send b => if (g.heap b).owner = some c then (if (g.heap b).dirty then some .staleRead else none) else some .notOwner
   | .sendLit _ => none
